@@ -19,6 +19,10 @@ pub struct Case {
     /// differences are not exactly representable; the oracle then works in arbitrary-precision dyadic arithmetic
     #[serde(default)]
     pub mul: Option<(f64, f64)>,
+    /// f64 mode: 0 = zeros as +0.0; otherwise every other zero coordinate (phase = this value) is spelled -0.0 - the same
+    /// number, so the same hull
+    #[serde(default)]
+    pub zeros: u8,
 }
 
 pub struct C08;
@@ -33,7 +37,7 @@ fn pts_strategy() -> impl Strategy<Value = Vec<C>> {
         // fewer than four points
         1 => proptest::collection::vec((-4i64..5, -4i64..5), 0..4),
         // three nearly parallel rows at large magnitude: farthest-point ties and rounding
-        3 => (40u32..52, -3i64..4, -3i64..4, proptest::collection::vec((0i64..40, 0i64..3, 0i64..4), 3..20), any::<bool>(), any::<bool>())
+        3 => (prop_oneof![2 => 40u32..52, 1 => 26u32..30], -3i64..4, -3i64..4, proptest::collection::vec((0i64..40, 0i64..3, 0i64..4), 3..20), any::<bool>(), any::<bool>())
             .prop_map(|(e, sx, sy, v, swap, neg)| {
                 let m = 1i64 << e;
                 v.iter().map(|(t, row, off)| {
@@ -264,11 +268,11 @@ impl Property for C08 {
             prop_oneof![Just(1.1f64), Just(0.3), Just(0.9), Just(1e-3), Just(3.3333333333333335), Just(7.1e5)],
             prop_oneof![Just(0.9f64), Just(0.3), Just(1.1), Just(1e-3), Just(0.7), Just(1.0)],
         )
-            .prop_map(|(pts, mx, my)| Case { pts, int: false, wrap: 0, mul: Some((mx, my)) });
-        let lattice = (pts_strategy(), any::<bool>(), 0u8..8)
-            .prop_map(|(pts, int, wrap)| {
-                let int = int && pts.iter().all(|p| p.0.abs() < (1 << 29) && p.1.abs() < (1 << 29));
-                Case { pts, int, wrap, mul: None }
+            .prop_map(|(pts, mx, my)| Case { pts, int: false, wrap: 0, mul: Some((mx, my)), zeros: 0 });
+        let lattice = (pts_strategy(), any::<bool>(), 0u8..8, prop_oneof![2 => Just(0u8), 1 => 1u8..3])
+            .prop_map(|(pts, int, wrap, zeros)| {
+                let int = int && pts.iter().all(|p| p.0.abs() < (1 << 30) && p.1.abs() < (1 << 30));
+                Case { pts, int, wrap, mul: None, zeros }
             });
         prop_oneof![12 => lattice, 1 => generic].boxed()
     }
@@ -287,7 +291,7 @@ impl Property for C08 {
             .into()
     }
     fn must_hit() -> Vec<&'static str> {
-        vec!["input-point-on-hull-edge", "duplicates", "magnitude>=2^40", "degenerate:fewer-than-3-non-collinear", "scalar:i64", "scalar:f64"]
+        vec!["input-point-on-hull-edge", "duplicates", "magnitude>=2^40", "degenerate:fewer-than-3-non-collinear", "scalar:i64", "scalar:f64", "i64:magnitude>=2^27", "zeros-of-both-signs"]
     }
     fn check(c: &Case, obs: &mut Obs) {
         if c.pts.iter().any(|p| p.0.abs() >= (1 << 52) || p.1.abs() >= (1 << 52)) {
@@ -303,12 +307,30 @@ impl Property for C08 {
             run_generic(c, mul, obs);
             return;
         }
-        if c.int && c.pts.iter().all(|p| p.0.abs() < (1 << 29) && p.1.abs() < (1 << 29)) {
+        // (i64: coordinates below 2^30 in magnitude and of one sign per axis in the large families, so that differences stay
+        // below 2^31 and the cross products of the exact integer kernel below 2^63)
+        let span = |f: &dyn Fn(&C) -> i64| c.pts.iter().map(|p| f(p)).max().unwrap_or(0) as i128 - c.pts.iter().map(|p| f(p)).min().unwrap_or(0) as i128;
+        if c.int && c.pts.iter().all(|p| p.0.abs() < (1 << 30) && p.1.abs() < (1 << 30)) && span(&|p| p.0) < (1 << 30) && span(&|p| p.1) < (1 << 30) {
             obs.label("scalar:i64");
+            if c.pts.iter().any(|p| p.0.abs() >= 1 << 27 || p.1.abs() >= 1 << 27) {
+                obs.label("i64:magnitude>=2^27");
+            }
             run::<i64>(c, obs, &|v| v, &|c| (c.x, c.y), "i64");
         } else {
             obs.label("scalar:f64");
-            run::<f64>(c, obs, &|v| v as f64, &|c| (c.x as i64, c.y as i64), "f64");
+            let nth = std::cell::Cell::new(c.zeros as u32);
+            let spell = |v: i64| -> f64 {
+                if v == 0 && c.zeros != 0 {
+                    nth.set(nth.get() + 1);
+                    if nth.get() % 2 == 0 { -0.0 } else { 0.0 }
+                } else {
+                    v as f64
+                }
+            };
+            if c.zeros != 0 && c.pts.iter().filter(|p| p.0 == 0).count() + c.pts.iter().filter(|p| p.1 == 0).count() >= 2 {
+                obs.label("zeros-of-both-signs");
+            }
+            run::<f64>(c, obs, &spell, &|c| (c.x as i64, c.y as i64), "f64");
             // minimum rotated rectangle
             let maxabs = c.pts.iter().map(|p| p.0.abs().max(p.1.abs())).max().unwrap_or(0);
             if maxabs < (1 << 20) && !all_collinear(&c.pts) {
